@@ -1,3 +1,130 @@
-From SV Require Import Model.Common Model.Reload Model.ReloadReplay.
-Theorem C17_placeholder : True. Proof. exact I. Qed.
-Print Assumptions C17_placeholder.
+(* C17 - Configuration reload is safe at any moment.
+   Only the property theorems; each is closed by [exact] of a lemma from Proofs/.
+
+   Model: Model/Reload.v (LTS of run/reloadable.go; [step true] is the current code, in which NewSink
+   creates the downstream sink under the read lock; [step false] the code before that fix).
+   A run is ANY list of events accepted by [step] from [init nthr maxn]: every interleaving of any number
+   of connection goroutines (NewSink / Accept / Tick / Close, each split at the lock and at the downstream
+   call) and of reload() (initiate - ok or error -, Lock, Close of every old sink, Shutdown, completeRenewal,
+   NewSink for every old sink), of any length.  [grun] additionally checks the assumption reloadable.go makes
+   on its callers at every NewSink: the client number is below MaxClientNumber and no other open (or
+   opening) sink has it. *)
+From SV Require Import Model.Common Model.Reload Spec.ReloadSpec Proofs.ReloadLists Proofs.ReloadInv Proofs.ReloadProofs.
+From Coq Require Import Permutation.
+Local Open Scope nat_scope.
+
+(* A reload whose initiateReload() fails (configuration invalid or incompatible) has no effect but the
+   failure counter: for every state, every code version and every traffic of the connections between the
+   SIGHUP and the error, the final state is the one the same traffic produces without the reload, with
+   slogagent_reloads_total{failure} + 1.  (Nothing is torn down before the new configuration is verified.) *)
+Theorem C17_failed_reload_noop :
+  forall (lk : bool) (st : state) (evs : list event) (st' : state),
+  Forall (fun e => is_reload_event e = false) evs ->
+  run lk st (ERlBegin :: evs ++ [ERlInit false]) = Some st' ->
+  exists st0, run lk st evs = Some st0 /\ st' = set_fails st0 (S (st_fails st0)).
+Proof. exact failed_reload_noop_lemma. Qed.
+Print Assumptions C17_failed_reload_noop.
+
+(* the failing step itself: only the counter and the position of the reload goroutine change *)
+Theorem C17_failed_init_step :
+  forall (lk : bool) (st st' : state),
+  step lk st (ERlInit false) = Some st' ->
+  st_rl st = RInit /\ st' = set_rl (set_fails st (S (st_fails st))) RIdle.
+Proof. exact failed_init_step_lemma. Qed.
+Print Assumptions C17_failed_init_step.
+
+(* No record is handed to a sink that is closed or to pipelines that are shut down, none is flushed into
+   pipelines that are shut down, and no goroutine panics - at every moment of every run in which client
+   numbers are unique among open sinks.  No atomicity of NewSink is assumed. *)
+Theorem C17_no_record_to_dead_pipeline :
+  forall (nthr maxn : nat) (evs : list event) (st : state),
+  grun true (init nthr maxn) evs = Some st -> log_ok (st_log st).
+Proof. exact no_dead_pipeline_lemma. Qed.
+Print Assumptions C17_no_record_to_dead_pipeline.
+
+(* No loss, no duplication, at every moment: for every record, the number of times it has been delivered to
+   pipelines + the number of times it sits in a downstream sink's buffer + in an Accept call in progress
+   equals the number of times it was passed to ReloadableSink.Accept. *)
+Theorem C17_no_loss :
+  forall (nthr maxn : nat) (evs : list event) (st : state) (r : rec),
+  grun true (init nthr maxn) evs = Some st ->
+  cnt r (delivered_recs (st_log st)) + cnt r (buffered st) + cnt r (inflight st) = cnt r (acc_of_events evs).
+Proof. exact no_loss_count_lemma. Qed.
+Print Assumptions C17_no_loss.
+
+(* ... and a buffer that holds records belongs to a sink that is open, whose pipelines are alive (the current
+   downstream orchestrator, not shut down) and which the table holds for its client number - so the
+   connection's Close or the next reload flushes it into live pipelines. *)
+Theorem C17_buffered_records_are_live :
+  forall (nthr maxn : nat) (evs : list event) (st : state) (s : nat) (d : dsink),
+  grun true (init nthr maxn) evs = Some st ->
+  nth_error (st_sinks st) s = Some d -> ds_pending d <> [] -> live_tracked st s d.
+Proof. exact buffered_live_lemma. Qed.
+Print Assumptions C17_buffered_records_are_live.
+
+(* Once every connection has closed its sink and no reload is in progress, the delivered records are exactly
+   the accepted ones (as multisets), whatever reloads happened in between. *)
+Theorem C17_no_loss_when_closed :
+  forall (nthr maxn : nat) (evs : list event) (st : state),
+  grun true (init nthr maxn) evs = Some st -> quiescent st ->
+  Permutation (acc_of_events evs) (delivered_recs (st_log st)).
+Proof. exact no_loss_quiescent_lemma. Qed.
+Print Assumptions C17_no_loss_when_closed.
+
+(* exactly once, for distinct records *)
+Theorem C17_exactly_once :
+  forall (nthr maxn : nat) (evs : list event) (st : state) (r : rec),
+  grun true (init nthr maxn) evs = Some st -> quiescent st ->
+  NoDup (acc_of_events evs) -> In r (acc_of_events evs) ->
+  count_occ N.eq_dec (delivered_recs (st_log st)) r = 1.
+Proof. exact exactly_once_lemma. Qed.
+Print Assumptions C17_exactly_once.
+
+(* The invariant behind the three theorems above, for any state reached by a run (lock discipline, table /
+   sink / generation consistency, unique owners). *)
+Theorem C17_invariant :
+  forall (nthr maxn : nat) (evs : list event) (st : state),
+  grun true (init nthr maxn) evs = Some st -> INV st.
+Proof. intros nthr maxn evs st H. exact (grun_inv evs _ _ (inv_init nthr maxn) H). Qed.
+Print Assumptions C17_invariant.
+
+(* Non-vacuity: a concrete run of the current code meets all hypotheses - two connections with traffic,
+   a successful reload that must wait for an Accept in progress, a failed reload, everything closed at
+   the end; five distinct records, each delivered once. *)
+Theorem C17_example :
+  exists st, grun true (init 2 2) example_run = Some st /\ quiescent st /\
+             NoDup (acc_of_events example_run) /\
+             delivered_recs (st_log st) = [5%N; 4%N; 3%N; 2%N; 1%N] /\
+             st_fails st = 1 /\ st_succs st = 1 /\ st_cur st = 1.
+Proof. exact example_lemma. Qed.
+Print Assumptions C17_example.
+
+(* Defect 13 (fixed in /repo): with the ORIGINAL NewSink ([step false]: downstream sink created before
+   RLock()) the property fails although client numbers are unique - a reload between downstream.NewSink
+   and the lock leaves a stale sink in the table, and record 1 is handed to pipelines already shut down. *)
+Theorem C17_stale_sink_refuted :
+  exists st, grun false (init 1 1) stale_sink_run = Some st /\ In (OHand 0 1%N 0 0 false) (st_log st).
+Proof. exact stale_sink_refuted_lemma. Qed.
+Print Assumptions C17_stale_sink_refuted.
+
+(* ... and in the current code that schedule is impossible: the reload cannot take the write lock while
+   NewSink holds the read lock. *)
+Theorem C17_stale_sink_excluded :
+  run true (init 1 1) [ENewBegin 0 0; ERlBegin; ERlInit true; ERlLock] = None.
+Proof. exact stale_sink_excluded_lemma. Qed.
+Print Assumptions C17_stale_sink_excluded.
+
+(* Defect 14 (known finding, current code): the uniqueness of client numbers is an assumption the TCP
+   listener itself can violate.  In a run of the listener model that respects the kernel's rule (a
+   descriptor number is handed out only while it is free) the closer goroutine closes the descriptor before
+   the connection goroutine's final Flush and deferred Close; a new connection gets the same number.
+   Result: panic (nil sink) in the new connection's Accept, record 3 lost, record 1 left in a sink that
+   nothing will ever flush. *)
+Theorem C17_slot_reuse_refuted :
+  exists ls, lrun true (linit 2 1) slot_reuse_run = Some ls /\
+             In (OPanic 1 2 [3%N]) (st_log (l_st ls)) /\
+             (exists d, nth_error (st_sinks (l_st ls)) 0 = Some d /\ ds_pending d = [1%N] /\ ds_closed d = false) /\
+             slot (l_st ls) 0 = None /\
+             ~ In 1%N (delivered_recs (st_log (l_st ls))).
+Proof. exact slot_reuse_refuted_lemma. Qed.
+Print Assumptions C17_slot_reuse_refuted.
